@@ -139,6 +139,7 @@ type eiCtx struct {
 	fs      []Finding
 	seen    map[string]bool
 	cur     atomic.Value // string: what is being processed (for the watchdog)
+	last    atomic.Int64 // when that step started
 	n       int          // checked objects
 	texts   int          // texts given to the parser
 	parsed  int          // texts the parser accepts
@@ -157,7 +158,12 @@ func (c *eiCtx) okOut() string {
 
 const eiWatchdog = 10 * time.Second
 
-func (c *eiCtx) at(what string) { c.cur.Store(what) }
+// at names the step being processed; the watchdog measures the time since the last step, so
+// that a line made of thousands of small texts is never mistaken for a hang on a loaded machine
+func (c *eiCtx) at(what string) {
+	c.cur.Store(what)
+	c.last.Store(time.Now().UnixNano())
+}
 
 // fail records one finding per signature and line.
 func (c *eiCtx) fail(prop, sig, detail string) {
@@ -220,17 +226,24 @@ func (e *eiExec) Do(line string) string {
 		}
 		ch <- eiRes{out, c.fs}
 	}()
-	select {
-	case res := <-ch:
-		e.fs = append(e.fs, res.fs...)
-		return res.out
-	case <-time.After(eiWatchdog):
-		sig := "hang"
-		if c.kind == "c09" {
-			sig = "c09-hang"
+	tick := time.NewTicker(250 * time.Millisecond)
+	defer tick.Stop()
+	for {
+		select {
+		case res := <-ch:
+			e.fs = append(e.fs, res.fs...)
+			return res.out
+		case <-tick.C:
+			if time.Since(time.Unix(0, c.last.Load())) < eiWatchdog {
+				continue
+			}
+			sig := "hang"
+			if c.kind == "c09" {
+				sig = "c09-hang"
+			}
+			e.fs = append(e.fs, Finding{Prop: prop, Sig: sig, Detail: sprintf("no answer after %v while %v [oracle %s %d %d]", eiWatchdog, c.cur.Load(), c.kind, seed, variant), Line: ln})
+			return "hang"
 		}
-		e.fs = append(e.fs, Finding{Prop: prop, Sig: sig, Detail: sprintf("no answer after %v while %v [oracle %s %d %d]", eiWatchdog, c.cur.Load(), c.kind, seed, variant), Line: ln})
-		return "hang"
 	}
 }
 
